@@ -11,10 +11,14 @@ COQ_PREAMBLE = SR.PREAMBLE
 SHARD = 4
 FORM = SR.FORM_TEXT % 'integrate_local_singlesite / integrate_local_twosite'
 TRUSTED = SR.TRUSTED
-PARTIAL = ('proved (Properties/C08.v): mixed-canonical norm and energy identities (one-site, two-site via C04, bond), the return value is the nrm of the '
-           'initial right-orthonormalisation, H is not an output of the model, the solver schedule for all L and numsteps; conservation of norm and energy '
-           'over a whole run is proved only per local step under the mixed-canonical invariant (the induction over the sweep that re-establishes the '
-           'invariant after each QR / split is not mechanised) and relative to the solver contract; floating-point drift is measured by prop(), not proved')
+PARTIAL = ('proved (Properties/C08.v, all closed under the global context): C08_tdvp1_conserves -- for every L >= 1, every number of steps and every bond profile the state '
+           'returned by the single-site model has norm one and the energy of the normalised input, and the return value is the nrm of the initial '
+           'right-orthonormalisation; relative to the contracts of the oracle calls the run issues, read off the emitted trace (block QR: Q.R = M, Q^H Q = I, '
+           '1 <= k <= n; local solvers preserve <x|x> and <x|H_eff x>; orthonormalize returns right-isometric tensors). Also the mixed-canonical norm / '
+           'one-site / two-site / zero-site (rectangular bond matrix) energy identities, the call schedule for all L and step counts, the per-call QR bond bound. '
+           'NOT proved: the two-site integrator along a whole run (per local step only; the SVD-split contract and its induction are not mechanised), bond '
+           'dimensions along a whole run, that floating-point Lanczos meets the conservation contract (measured), rounding drift (measured by prop()); '
+           'Hermiticity of H and imaginary dt enter only through the solver contract; H is an argument no model function returns or updates (bytes compared here)')
 ASSUMPTIONS = SR.ASSUMPTIONS
 RULE = ('Hermitian MPOs (XXZ, Ising, Bose-Hubbard, Fermi-Hubbard, random Hermitian with and without charges), L in 1..5 (two-site: L >= 2), '
         'bond profiles, sectors, purely imaginary dt of several sizes, 1..3 steps, 1..6 Krylov iterations, repeated calls on the same state, '
